@@ -57,6 +57,13 @@ def failure_props(f, res):
             for (a, b, oid, t2, ck, addr) in res.clause_ranges:
                 if oid == m.group(1):
                     tags |= set(t2)
+    # A failing assertion inside a spliced proof block or a failing loop invariant hides what depends on it: Verus assumes the asserted
+    # fact afterwards and does not go on to report the postconditions it was there to establish.  Such a failure is therefore attributed to
+    # the properties of the postconditions (ensures clauses) of the same function as well.
+    if f.kind in ('assertion', 'invariant') and (f.oid.startswith('P-') or f.oid.startswith('I-') or f.oid.startswith('A-')):
+        for (a, b, oid, t2, ck, addr) in res.clause_ranges:
+            if addr == f.addr and ck == 'ensures':
+                tags |= set(t2)
     return tags
 
 
